@@ -62,8 +62,18 @@ def parse_out(ho):
     return genes, age, n, "INVALID" in w, dr.split()
 
 
+def plain(line):
+    """decrossa <seed> <alias> ... -> decross <seed> ... (aliasing only says which operands are one C++ object)"""
+    w = line.split()
+    if w and w[0] == "decrossa":
+        return " ".join(["decross", w[1]] + w[3:])
+    return line
+
+
 def judge(line, ho):
     """returns list of (key, what) violations of the property by the implementation's output"""
+    alias = line.split()[2] if line.startswith("decrossa") else None
+    line = plain(line)
     w = line.split()
     op = w[0]
     out = parse_out(ho)
@@ -147,6 +157,13 @@ def judge(line, ho):
             bad.append(("i_de::crossover:length", "trial has %d genes, parents %d" % (len(genes), n)))
         elif len(rdraws) != 1:
             bad.append(("i_de::crossover:factor-draws", "%d real draws in one crossover (one F per trial expected)" % len(rdraws)))
+            # whatever F is, with a == b (finite) the mutant value is c + F*0 = c: the last position must hold the base's value
+            if a == b and all(math.isfinite(fl(x)) for x in a) and math.isfinite(flo) and math.isfinite(fhi):
+                want = hx(fl(c[n - 1]) + 0.0)
+                if genes[n - 1] != want:
+                    bad.append(("i_de::crossover:last-not-mutant",
+                                "a and b are the same vector, so the last position must be the base's value %s; trial[%d] = %s%s"
+                                % (want, n - 1, genes[n - 1], " (operands aliased %s)" % alias if alias else "")))
         else:
             F = fl(rdraws[0].split(":")[3])
             if not flo <= F <= fhi:
@@ -173,6 +190,9 @@ def judge(line, ho):
 
 
 def nontrivial(line, ho):
+    if line.startswith("decrossa"):
+        out = parse_out(ho)
+        return ("decrossa", line) if out is not None else None
     w = line.split()
     out = parse_out(ho)
     if out is None:
@@ -298,6 +318,26 @@ def next_round(ck, probs_i, pops_i, probs_r, pops_r):
                 inds = [([hx(special_real(rng, lo, hi)) for lo, hi in rg], rng.choice(AGES)) for _ in range(4)]
             p = rng.choice(P_VALUES)
             flo, fhi = rng.choice(F_RANGES)
+            if rng.random() < 0.35:
+                # aliased operands (recombination::de draws a and b independently: they can be the same individual, and
+                # any of them can be the target or the base).  Roles: target, a, b, c -> object index
+                al = rng.choice(["0112", "0111", "0120", "0012", "0100", "0110", "0000", "0121", "0123", "0122"])
+                first = {}
+                roles = []
+                for r, d in enumerate(al):
+                    first.setdefault(d, inds[r])
+                    roles.append(first[d])
+                ages = {}
+                role_inds = []
+                for r, d in enumerate(al):
+                    ages.setdefault(d, rng.choice(AGES) if rng.random() < 0.3 else roles[r][1])
+                    role_inds.append((roles[r][0], ages[d]))
+                # the line lists target, a, b, c in this order (aliased roles carry identical data); the harness passes
+                # ONE object for all roles that share a digit of <alias>
+                lines.append(("decrossa %d %s %s %s %s %d %s" % (rng.getrandbits(32), al, hx(p), hx(flo), hx(fhi), n,
+                                                                " ".join("%d %s" % (a, " ".join(g)) for g, a in role_inds)),
+                              ("r", pid)))
+                continue
             lines.append(("decross %d %s %s %s %d %s" % (rng.getrandbits(32), hx(p), hx(flo), hx(fhi), n,
                                                          " ".join("%d %s" % (rng.choice(AGES) if rng.random() < 0.3 else a, " ".join(g))
                                                                   for g, a in inds)), ("r", pid)))
